@@ -472,7 +472,9 @@ func vc11Hist(f []string) string {
 		switch t[0] {
 		case "E":
 			s := vc11ParseSess(o)
-			st := models.SessionStateActive
+			// every state other than "released" is replicated as an update
+			st := []models.SessionState{models.SessionStateActive, models.SessionStateUnknown, models.SessionStateDiscovering,
+				models.SessionStateOffered, models.SessionStateRequesting, models.SessionStateTunneled}[(s.user+s.ov+s.iv)%6]
 			if s.rel {
 				st = models.SessionStateReleased
 			}
